@@ -26,7 +26,7 @@ ASSUMPTIONS = [
     "maxnan missing values",
     "sums compared to 1e-11 x sum|v| (exact on the lattice), max / tail exactly",
 ]
-OBLIGATIONS = {"reuse-array": 100, "maxnan:on-a-group-count": 100, "op0": 50, "op1": 50, "op2": 50, "op3": 50, "neg-values+max": 20,
+OBLIGATIONS = {"reuse-array": 100, "values:mixed-magnitude": 10, "maxnan:on-a-group-count": 100, "op0": 50, "op1": 50, "op2": 50, "op3": 50, "neg-values+max": 20,
                "nan-last-in-group+tail": 20, "whole-group-nan": 20, "single-group": 10,
                "n=1": 5, "extreme-index": 10, "reject:decreasing": 30,
                "flathomogen": 50, "goue": 20, "goue:transform": 5, "m2d:flat": 10, "m2d:cubic": 10,
@@ -75,7 +75,16 @@ def gen_index(rng, n, it):
 
 
 def gen_values(rng, n, it):
-    k = it % 5
+    k = it % 6
+    if k == 5:
+        # ordinary values with a few very large ones in between (one array holding
+        # litres and gigalitres): each group's result depends on its own members only
+        v = rng.integers(1, 40, size=n) / 4.0
+        nb = max(1, n // 12)
+        pos = rng.choice(n, size=min(nb, n), replace=False)
+        v[pos] = rng.choice([1e12, 1e15, 1e17, -1e16], size=len(pos)) * \
+            rng.integers(1, 9, size=len(pos))
+        return v.astype(np.float64)
     if k == 0:
         v = rng.integers(-40, 40, size=n) / 4.0
     elif k == 1:
@@ -405,7 +414,9 @@ def run(ctx):
         if it % 50 == 3:
             n = int(rng.integers(500, 2001))
         idx = gen_index(rng, n, int(rng.integers(0, 7)))
-        v = gen_values(rng, n, int(rng.integers(0, 5)))
+        v = gen_values(rng, n, int(rng.integers(0, 6)))
+        if np.abs(v).max() >= 1e12:
+            ctx.tag("values:mixed-magnitude")
         v, tags = add_nans(rng, v, idx, int(rng.integers(0, 6)))
         glen = max(e - s for s, e in groups(idx))
         # the number of missing values of each group: maxnan exactly on, one below and
